@@ -2,32 +2,58 @@
 C14 — agent registry of `BPTK_Py.modeling.model.Model` (agents list, agent_type_map, next_agent_id).
 
 Executable model, import-free.  Agent types and states are natural numbers (the harness maps the
-strings it uses to numbers).  `Cfg.countById` is the mechanism fact probed on every run:
-`agent_count_per_state` looks an agent up by *id* (true) or by *list position* `agents[id]` (false,
-the behaviour of the pinned tree before the fix).
+strings it uses to numbers).  Mechanism facts probed on every run:
+* `Cfg.countById` — `agent_count_per_state` looks an agent up by *id* (true) or by *list position*
+  `agents[id]` (false, the behaviour of the pinned tree before the fix);
+* `Cfg.idsAliased` — `agent_ids(t)` returns the internal list object `agent_type_map[t]` (true on the
+  pinned tree) or a copy (false).  Only the caller-mutation layer (`OpX`) depends on it.
+
+Wave 2: an agent carries both the factory key it was created under (`key`, ghost — Python does not
+store it) and its `agent_type` ATTRIBUTE (`ty`).  `create_agent` files the id under the KEY,
+`delete_agents` rebuilds the lists of the removed agents' ATTRIBUTES from the attributes of the
+survivors, `next_agent` reads the attribute.  A factory is `Fac`: the attribute of the agent returned
+for (key, id); it is *faithful* when the attribute is always the key.  Registered factory keys
+(`reg`) and the key set of `agent_type_map` (`mapped`) are part of the state: unregistered keys make
+`create_agent`, `agent_ids`, `agent_count`, `agent_count_per_state`, `random_agents` raise KeyError,
+and `delete_agents` of an agent with an unregistered attribute *adds* that attribute as a key.
 -/
 namespace Bptk.C14
 
 structure Agent where
   id : Nat
-  ty : Nat
+  ty : Nat      -- the `agent_type` attribute of the object the factory returned
   state : Nat
+  key : Nat     -- ghost: the factory key passed to `create_agent`
 deriving DecidableEq, Repr
 
 structure Cfg where
   countById : Bool
+  idsAliased : Bool := true
 deriving DecidableEq, Repr
 
-/-- `agents`: Python list in list order.  `tmap`: `agent_type_map` (a total function: the harness
-registers every type it uses before the first operation).  `next`: `next_agent_id`.
+/-- `f key id` = `agent_type` attribute of the agent that the factory registered under `key` returns
+when handed `id` (ids are never reused, so this covers factories whose answer varies per call). -/
+abbrev Fac := Nat → Nat → Nat
+
+/-- the contract of `register_agent_factory`'s docstring: "Output: Agent of agent_type". -/
+def Faithful (f : Fac) : Prop := ∀ k i, f k i = k
+
+def Fac.id : Fac := fun k _ => k
+
+/-- `agents`: Python list in list order.  `tmap`: `agent_type_map` values (`[]` for keys not in the
+dict — see `mapped`).  `next`: `next_agent_id`.  `reg`: keys of `agent_factories` (fixed: the
+harness registers before the first operation).  `mapped`: keys of `agent_type_map`.
 `ever`: ghost — every id ever handed out (not in the Python object; used for "never reused"). -/
 structure Reg where
   agents : List Agent
   tmap : Nat → List Nat
   next : Nat
   ever : List Nat
+  reg : Nat → Bool
+  mapped : Nat → Bool
 
-def Reg.init : Reg := { agents := [], tmap := fun _ => [], next := 0, ever := [] }
+def Reg.init (reg : Nat → Bool) : Reg :=
+  { agents := [], tmap := fun _ => [], next := 0, ever := [], reg := reg, mapped := reg }
 
 inductive Op where
   | create (ty : Nat)                      -- create_agent(type, props); state of a new agent is 0 ("active")
@@ -35,33 +61,53 @@ inductive Op where
   | configure (spec : List (Nat × Nat))    -- configure_agents([{name, count}, …])
   | reset                                  -- reset()
   | setState (id : Nat) (st : Nat)         -- model.agent(id).state = st   (no-op when absent)
+  | configureAll (spec : List (Nat × Nat)) -- configure({"runspecs":…, "properties":…, "agents":[…]})
 deriving Repr
 
 def idsOfType (as : List Agent) (ty : Nat) : List Nat :=
   (as.filter (fun a => a.ty == ty)).map (·.id)
 
-def create (r : Reg) (ty : Nat) : Reg :=
-  { agents := r.agents ++ [{ id := r.next, ty := ty, state := 0 }]
-    tmap := fun t => if t = ty then r.tmap t ++ [r.next] else r.tmap t
-    next := r.next + 1
-    ever := r.ever ++ [r.next] }
+def idsOfKey (as : List Agent) (k : Nat) : List Nat :=
+  (as.filter (fun a => a.key == k)).map (·.id)
 
-def createN (r : Reg) (ty : Nat) : Nat → Reg
+/-- `create_agent(key, props)` for a registered key: the factory is called with `next_agent_id`, the
+agent is appended, its id is appended IN PLACE to `agent_type_map[key]`. -/
+def create (f : Fac) (r : Reg) (k : Nat) : Reg :=
+  { r with agents := r.agents ++ [{ id := r.next, ty := f k r.next, state := 0, key := k }]
+           tmap := fun t => if t = k then r.tmap t ++ [r.next] else r.tmap t
+           next := r.next + 1
+           ever := r.ever ++ [r.next] }
+
+/-- `create_agent`: `self.agent_factories[key]` raises KeyError before anything is changed. -/
+def createOp (f : Fac) (r : Reg) (k : Nat) : Reg := if r.reg k then create f r k else r
+
+def createN (f : Fac) (r : Reg) (k : Nat) : Nat → Reg
   | 0 => r
-  | n + 1 => createN (create r ty) ty n
+  | n + 1 => createN f (create f r k) k n
 
-def createSpec (r : Reg) : List (Nat × Nat) → Reg
+/-- `for spec in config: create_agents(spec)`; the first spec with a positive count and an
+unregistered name raises KeyError and leaves what was created so far (count 0 never looks the
+factory up). -/
+def createSpec (f : Fac) (r : Reg) : List (Nat × Nat) → Reg
   | [] => r
-  | (ty, n) :: rest => createSpec (createN r ty n) rest
+  | (k, n) :: rest => if n = 0 ∨ r.reg k = true then createSpec f (createN f r k n) rest else r
 
-/-- `delete_agents`: keep the agents whose id is not listed; then, for every type of a removed agent,
-rebuild that type's id list from the surviving agents. -/
+/-- does `configure_agents(spec)` raise? -/
+def specRaises (r : Reg) (spec : List (Nat × Nat)) : Bool :=
+  spec.any (fun p => p.2 != 0 && !r.reg p.1)
+
+/-- `delete_agents`: keep the agents whose id is not listed (REBINDS `self.agents`); then, for the
+`agent_type` attribute of every removed agent, REBIND that key's id list to the ids of the surviving
+agents with that attribute (creating the key when it is not in the dict). -/
 def delete (r : Reg) (ids : List Nat) : Reg :=
   let keep := r.agents.filter (fun a => !ids.contains a.id)
   let gone := (r.agents.filter (fun a => ids.contains a.id)).map (·.ty)
   { r with agents := keep
-           tmap := fun t => if gone.contains t then idsOfType keep t else r.tmap t }
+           tmap := fun t => if gone.contains t then idsOfType keep t else r.tmap t
+           mapped := fun t => r.mapped t || gone.contains t }
 
+/-- `reset` / head of `configure_agents`: every key of the dict is REBOUND to a fresh `[]`,
+`self.agents` is rebound to `[]`; `next_agent_id` is kept. -/
 def clear (r : Reg) : Reg := { r with agents := [], tmap := fun _ => [] }
 
 def setState (as : List Agent) (id st : Nat) : List Agent :=
@@ -69,14 +115,22 @@ def setState (as : List Agent) (id st : Nat) : List Agent :=
   | [] => []
   | a :: rest => if a.id = id then { a with state := st } :: rest else a :: setState rest id st
 
-def step (r : Reg) : Op → Reg
-  | .create ty => create r ty
+def step (f : Fac) (r : Reg) : Op → Reg
+  | .create k => createOp f r k
   | .delete ids => delete r ids
-  | .configure spec => createSpec (clear r) spec
+  | .configure spec => createSpec f (clear r) spec
   | .reset => clear r
   | .setState id st => { r with agents := setState r.agents id st }
+  | .configureAll spec => createSpec f (clear r) spec   -- run specs / properties are not registry state
 
-def run (r : Reg) (ops : List Op) : Reg := ops.foldl step r
+/-- does the operation raise in state `r`? -/
+def raises (r : Reg) : Op → Bool
+  | .create k => !r.reg k
+  | .configure spec => specRaises r spec
+  | .configureAll spec => specRaises r spec
+  | _ => false
+
+def run (f : Fac) (r : Reg) (ops : List Op) : Reg := ops.foldl (step f) r
 
 /-! ### Queries (as the Python methods compute them) -/
 
@@ -87,8 +141,14 @@ def agentIds (r : Reg) (ty : Nat) : List Nat := r.tmap ty
 
 def count (r : Reg) (ty : Nat) : Nat := (r.tmap ty).length
 
+/-- `agent_ids(t)` with the KeyError of an unknown key (`none`). -/
+def agentIdsE (r : Reg) (ty : Nat) : Option (List Nat) := if r.mapped ty then some (r.tmap ty) else none
+
+/-- `agent_count(t)`; `none` = KeyError. -/
+def countE (r : Reg) (ty : Nat) : Option Nat := if r.mapped ty then some (r.tmap ty).length else none
+
 /-- state of the agent that `agent_count_per_state` inspects for a listed id; `none` = the Python
-expression raises (IndexError / AttributeError). -/
+expression raises (IndexError / AttributeError on `None.state`). -/
 def inspected (c : Cfg) (r : Reg) (id : Nat) : Option Nat :=
   if c.countById then (lookup r id).map (·.state) else (r.agents[id]?).map (·.state)
 
@@ -99,16 +159,73 @@ def cpsStep (c : Cfg) (r : Reg) (st : Nat) (acc : Option Nat) (id : Nat) : Optio
   | _, _ => none
 
 def countPerState (c : Cfg) (r : Reg) (ty st : Nat) : Option Nat :=
-  (r.tmap ty).foldl (cpsStep c r st) (some 0)
+  if r.mapped ty then (r.tmap ty).foldl (cpsStep c r st) (some 0) else none
 
-/-- `next_agent(type, state)`. -/
+/-- `next_agent(type, state)`: first agent in list order whose `agent_type` ATTRIBUTE and state match. -/
 def nextAgent (r : Reg) (ty st : Nat) : Option Nat :=
   (r.agents.find? (fun a => a.ty == ty && a.state == st)).map (·.id)
+
+/-! ### `random_agents` with the random source as an oracle -/
+
+/-- Python's `round(num/den)` for non-negative rationals: nearest integer, ties to even. -/
+def roundHE (num den : Nat) : Nat :=
+  let q := num / den
+  let rem := num % den
+  if 2 * rem < den then q else if den < 2 * rem then q + 1 else if q % 2 = 0 then q else q + 1
+
+/-- `get_random_integer(0, hi)` = `round(random() * hi)` when `random()` returned `p/q`. -/
+def randInt (u : Nat × Nat) (hi : Nat) : Nat := roundHE (u.1 * hi) u.2
+
+/-- `random_agents(type, num)` where the j-th call of `get_random_integer(0, n-1)` returns `idx j`.
+`none` = raises (KeyError for an unknown key, IndexError for an index ≥ n).  For `n = 0` no index is
+drawn (`range(min(num, 0))`) and the result is `[]`. -/
+def pick (m : List Nat) (idx : Nat → Nat) : Nat → Option (List Nat)
+  | 0 => some []
+  | k + 1 => match pick m idx k, m[idx k]? with
+    | some l, some x => some (l ++ [x])     -- `agent_ids.append(agent_map[i])`
+    | _, _ => none
+
+def randomAgentsIdx (r : Reg) (ty num : Nat) (idx : Nat → Nat) : Option (List Nat) :=
+  if r.mapped ty then pick (r.tmap ty) idx (min num (r.tmap ty).length) else none
+
+/-- the same with the oracle being the values `p/q` that `random.random()` returns (j-th draw
+`us j`). -/
+def randomAgents (r : Reg) (ty num : Nat) (us : Nat → Nat × Nat) : Option (List Nat) :=
+  randomAgentsIdx r ty num (fun j => randInt (us j) ((r.tmap ty).length - 1))
 
 /-! ### Specification on the live population -/
 
 def liveOfType (r : Reg) (ty : Nat) : List Agent := r.agents.filter (fun a => a.ty == ty)
 def liveOfTypeState (r : Reg) (ty st : Nat) : List Agent :=
   r.agents.filter (fun a => a.ty == ty && a.state == st)
+def liveOfKey (r : Reg) (k : Nat) : List Agent := r.agents.filter (fun a => a.key == k)
+
+/-! ### Caller-mutation layer: `model.agent_ids(t).append(x)`
+
+Not one of the property's operations (creation, deletion, reconfiguration, reset): a caller that
+mutates the list returned by `agent_ids`.  With `idsAliased` the returned object IS
+`agent_type_map[t]`, so the append lands in the registry; with a copy it does not. -/
+inductive OpX where
+  | op (o : Op)
+  | callerAppend (ty x : Nat)
+deriving Repr
+
+def stepX (c : Cfg) (f : Fac) (r : Reg) : OpX → Reg
+  | .op o => step f r o
+  | .callerAppend ty x =>
+      if c.idsAliased && r.mapped ty then
+        { r with tmap := fun t => if t = ty then r.tmap t ++ [x] else r.tmap t }
+      else r
+
+def runX (c : Cfg) (f : Fac) (r : Reg) (ops : List OpX) : Reg := ops.foldl (stepX c f) r
+
+def OpX.isOp : OpX → Bool
+  | .op _ => true
+  | _ => false
+
+def opsOf : List OpX → List Op
+  | [] => []
+  | .op o :: rest => o :: opsOf rest
+  | _ :: rest => opsOf rest
 
 end Bptk.C14
